@@ -146,13 +146,13 @@ theorem canon_closed_at (v r : Var) (args : List Var) (hv : canonVar v = true)
   canonVar_varIntervene v r args hv hn h
 
 /-- `P(args…)` / `PP[pop](args…)`: canonical arguments with pairwise distinct names give a built probability -/
-theorem built_closed_P (lt : Expr → Expr → Bool) (pop : Option Var) (args : List Val) (e : Expr)
+theorem built_closed_P (lt : Expr → Expr → Bool) (pop : Option Var) (args : List PyEval.Val) (e : Expr)
     (hcanon : ∀ v ∈ argVars args, canonVar v = true) (hnod : ((argVars args).map Var.name).Nodup)
     (hpop : canonPop pop = true) (h : PyEval.probSafe pop none args = .ok (.expr e)) : built lt e = true :=
   built_probSafe_plain lt pop args e hcanon hnod hpop h
 
 /-- `P[ivs](args…)` / `PP[pop][ivs](args…)`: moreover the new subscripts have pairwise distinct, fresh names -/
-theorem built_closed_P_ivs (lt : Expr → Expr → Bool) (pop : Option Var) (args : List Val) (ivs : Val) (is : List Var)
+theorem built_closed_P_ivs (lt : Expr → Expr → Bool) (pop : Option Var) (args : List PyEval.Val) (ivs : PyEval.Val) (is : List Var)
     (e : Expr) (hcanon : ∀ v ∈ argVars args, canonVar v = true) (hnod : ((argVars args).map Var.name).Nodup)
     (hpop : canonPop pop = true) (hivs : PyEval.hintVars ivs = .ok is) (hisN : (is.map Var.name).Nodup)
     (hfresh : ∀ v ∈ argVars args, ∀ i ∈ v.ivs, ∀ w ∈ is, i.name ≠ w.name)
@@ -160,7 +160,7 @@ theorem built_closed_P_ivs (lt : Expr → Expr → Bool) (pop : Option Var) (arg
   built_probSafe_ivs lt pop args ivs is e hcanon hnod hpop hivs hisN hfresh h
 
 /-- `Q[cod](dom…)`: non-empty domain and codomain of canonical variables with pairwise distinct names -/
-theorem built_closed_Q (lt : Expr → Expr → Bool) (cod : Val) (args : List Val) (cs : List Var) (e : Expr)
+theorem built_closed_Q (lt : Expr → Expr → Bool) (cod : PyEval.Val) (args : List PyEval.Val) (cs : List Var) (e : Expr)
     (hcod : PyEval.hintVars cod = .ok cs) (hcne : cs ≠ []) (hcN : (cs.map Var.name).Nodup)
     (hcc : ∀ v ∈ cs, canonVar v = true) (hcanon : ∀ v ∈ argVars args, canonVar v = true)
     (hnod : ((argVars args).map Var.name).Nodup) (hane : argVars args ≠ [])
